@@ -346,6 +346,7 @@ def random_spec(rng, n_max=4, m_max=4, allow_neg=False, scaling=True, units=True
     fixed = np.setdiff1d(np.arange(n), free)
     x0[fixed] = xfeas[fixed]
     spec['x0'] = _r(x0, 12)
+    spec['xfeas'] = xfeas.tolist()      # the point the bounds were drawn around (omv/ref/qphist.py)
     gfeas = A @ xfeas + b
     # ---- constraints
     cons = []
